@@ -156,6 +156,21 @@ def _classes():
         def _getparamnames(self, prefix=""):
             return [prefix + "scale", prefix + "mat"]
 
+    class MFreeGmv(xitorch.LinearOperator):
+        """matrix-free general operator with _mv ONLY: rmv / rmm / .H come from the library's adjoint trick
+        (differentiation of mv w.r.t. its argument)"""
+
+        def __init__(self, mat):
+            super().__init__(shape=tuple(mat.shape), is_hermitian=False, dtype=mat.dtype, device=mat.device)
+            self.mat = mat
+
+        def _mv(self, x):
+            return torch.matmul(self.mat, x.unsqueeze(-1)).squeeze(-1)
+
+        def _getparamnames(self, prefix=""):
+            return [prefix + "mat"]
+
+    _CLS["MFreeGmv"] = MFreeGmv
     _CLS["MFreeHnd"] = MFreeHnd
     _CLS["MFreeH"] = MFreeH
     _CLS["MFreeG"] = MFreeG
@@ -187,6 +202,8 @@ def gen_op(kind, mat):
     import xitorch
     if kind == "dense":
         return xitorch.LinearOperator.m(mat, is_hermitian=False)
+    if kind == "mfree_mv":
+        return _classes()["MFreeGmv"](mat)
     return _classes()["MFreeG"](mat)
 
 
